@@ -515,7 +515,7 @@ def kernel01(draw, H, W, kdtype, cap=11, non01=True):
             if k.sum() < 2:
                 k[kh // 2, kw // 2] = 1
     k = k.astype(kdtype)
-    if non01 and n > 1 and draw(st.integers(0, 5)) == 0:
+    if non01 and n > 1 and draw(st.sampled_from([False] * 7 + [True])):
         others = [2.0, 0.5, -1.0, 3.0] if kdtype.startswith("float") else [2, -1, 3]
         m = draw(st.integers(1, min(3, n)))
         for _ in range(m):
@@ -726,7 +726,7 @@ HOT_DTYPES = [["float64", "int32"], ["float32", "int64", "uint8", "int16"]]
 def shards(tier):
     th = tier == "thorough"
     side = 16 if th else 12
-    mul = 10 if th else 1
+    mul = 20 if th else 1
     out = []
 
     def rep(name, combos_list, body, strat, per, copies):
